@@ -45,6 +45,21 @@ def run(ctx, prop=PROP):
 
     results, stale = proved_part(prop)
     mon, totals = runner.run_sharded(drive_iindex.work, ctx.tier)
+    if prop == "C07":
+        # "including ... construction from arrays": the well-formedness clauses of from_array's contract (same run as C01)
+        from ..rtc import drive_convert
+
+        mon2, totals2 = runner.run_sharded(drive_convert.work, ctx.tier)
+        keep = lambda ob: ob.startswith("iindexes.iindex.from_array/ensures-wf-") or ob == "iindexes.iindex.from_array/ensures-validate"  # noqa
+        for ob, n in mon2.evals.items():
+            if keep(ob):
+                mon.evals[ob] += n
+        for f in mon2.failures:
+            if keep(f.obligation):
+                mon.failures.append(f)
+                mon.fail_counts[f.obligation] += mon2.fail_counts[f.obligation]
+        totals["driver_calls"] += totals2["driver_calls"]
+        totals["nontrivial"] += totals2["nontrivial"]
     real = [r for r in results if r.kind != "canary"]
     failed = [r for r in real if not r.discharged]
     for r in failed:
@@ -58,6 +73,27 @@ def run(ctx, prop=PROP):
             ctx.violation(core.Violation(prop, r.name, "obligation generated from the current source is not discharged (%s by %s); the bounded run found no failing input"
                                          % (r.verdict, r.backend), input=None, cls={"method": method},
                                          solver={"verdict": r.verdict, "backend": r.backend, "detail": r.detail, "model": r.model}, no_input=True))
+    eqres = None
+    if prop == "C15":
+        import ast as _ast
+
+        from .. import env as _env
+        from ..kvc import eqlemma
+
+        if not eqlemma.probe_setxor1d():
+            raise core.CheckerBroken("numpy.setxor1d probe failed")
+        eqres, eqstale = eqlemma.run(_ast.parse(_env.read_source("iindexes.py")))
+        for name, verdict, secs, detail in eqres:
+            if verdict == "unsat":
+                continue
+            witness = [f for f in mon.failures if "/eq-" in f.obligation]
+            if witness:
+                f = witness[0]
+                ctx.violation(core.Violation("C15", name, "equality obligation generated from the current __eq__/__ne__ source is not discharged (%s); the bounded "
+                                             "run of the real code fails %s: %s" % (verdict, f.obligation, f.what), input=f.input, cls=f.cls))
+            else:
+                ctx.violation(core.Violation("C15", name, "equality obligation generated from the current __eq__/__ne__ source is not discharged (%s); the bounded run "
+                                             "found no failing pair" % verdict, input=None, cls={"obligation": name}, solver={"verdict": verdict, "detail": detail}, no_input=True))
     callsites = None
     if prop == "C06":
         from ..kvc import callsite
@@ -78,6 +114,14 @@ def run(ctx, prop=PROP):
         }
         if callsites:
             ctx.coverage["proved_subobligations"]["fit_dtype_call_sites"] = callsites
+    if eqres is not None:
+        ctx.coverage["proved_subobligations"] = {
+            "what": "the return expression of the real __eq__ translated to SMT-LIB over abstract finite maps (keys: finite sets with cardinality, cvc5): "
+                    "for well-formed operands it holds iff shape, common and entries coincide; under wf the entries are determined by (common, dense view) "
+                    "and conversely (z3); __ne__ is the negation of __eq__",
+            "obligations": len(eqres), "discharged": sum(1 for r in eqres if r[1] == "unsat"), "proof_stale": eqstale,
+            "samples": [{"obligation": r[0], "verdict": r[1], "seconds": round(r[2], 3)} for r in eqres[:6]],
+        }
     ctx.assumptions += ["bounded: holds on the enumerated state/argument scope only (engine C is the bounded stand-in, not a proof)",
                         "histories: by induction over per-operation contracts whose only precondition on the receiver is wf"]
 
@@ -90,7 +134,8 @@ EXPECT = {
             "append/frame-other-unchanged", "copy/no-shared-storage", "column_stack/no-shared-storage"],
     "C07": ["shift_common/ensures-wf-empty-entry", "append/ensures-wf-empty-entry", "update/ensures-wf-", "filtered/ensures-wf-",
             "sliced/ensures-wf-", "reindexed/ensures-wf-", "collapsed/ensures-wf-", "copy/ensures-wf-", "column_stack/ensures-wf-",
-            "union_update/ensures-wf-", "ensures-validate", "observer-equals-unique", "observer-fraction", "observer-inferred-shape"],
+            "union_update/ensures-wf-", "ensures-validate", "observer-equals-unique", "observer-fraction", "observer-inferred-shape",
+            "from_array/ensures-wf-"],
     "C15": ["shift_common/ensures-common-is-mode", "append/ensures-common-is-mode", "filtered/ensures-common-is-mode",
             "collapsed/ensures-common-is-mode", "eq-iff-same", "eq-ne-never-raises", "eq-ne-is-negation", "eq-symmetric", "eq-reflexive",
             "eq-false-against-non-index", "eq-append-result-equals"],
